@@ -124,6 +124,7 @@ func init() {
 			}
 			c01StatusMixes(c)
 		},
+		Solo:  c01Solo,
 		Cases: func(c *mon.Ctx) int { return nCorpus + c.Pick(120000, 3000000) },
 		RunCase: func(c *mon.Ctx, i int) {
 			if i < nCorpus {
@@ -182,6 +183,11 @@ func init() {
 				if r.Counters["evaluations_"+k] == 0 {
 					gates = append(gates, "no "+k+" evaluation observed")
 				}
+			}
+			ev.Coverage["probe_status_mixes"] = map[string]any{"cert": r.SetSize("probe_mix_cert"), "crl": r.SetSize("probe_mix_crl"), "ocsp": r.SetSize("probe_mix_ocsp")}
+			ev.Coverage["recovered_panic_results_judged"] = r.Counters["recovered_panic_results_judged"]
+			if r.SetSize("probe_mix_cert") < 16 || r.SetSize("probe_mix_crl") < 16 || r.SetSize("probe_mix_ocsp") < 16 || r.Counters["recovered_panic_results_judged"] == 0 {
+				gates = append(gates, "probe-lint part did not realise all 16 status mixes for every kind (or judged no recovered-panic result)")
 			}
 			if r.SetSize("directed_mix_cert") < 12 {
 				gates = append(gates, fmt.Sprintf("only %d of 16 directed certificate status mixes realised", r.SetSize("directed_mix_cert")))
